@@ -267,6 +267,7 @@ func c08InitCheck(w W) (string, string) {
 }
 
 func runC08(c *ev.Ctx) {
+	defer sizeSweep(c, "C08")
 	type phase struct {
 		name                  string
 		nodes, treeDepth, len int
